@@ -96,8 +96,9 @@ class H:
         self.covers.append((cid, [term(h) for h in hyps]))
 
 
-def run_function(it, fn, args, kwargs=None, self_obj=None, gen=None):
-    """execute the real body of `fn` (bypassing any summary registered for fn itself)"""
+def run_function(it, fn, args, kwargs=None, self_obj=None, gen=None, keep_contract=False):
+    """execute the real body of `fn` (bypassing any summary registered for fn itself; with keep_contract the summary stays
+    installed for the *recursive* calls made by the body)"""
     node, filename = I.SOURCES.funcdef(fn)
     it.session.note_function(fn)
     q = fn.__qualname__.replace("<locals>.", "")
@@ -122,7 +123,7 @@ def run_function(it, fn, args, kwargs=None, self_obj=None, gen=None):
         finally:
             it.gen_stack.pop()
         return gen
-    saved = it.session.contracts.pop(fn, None)
+    saved = None if keep_contract else it.session.contracts.pop(fn, None)
     try:
         return it.call_ast(node, env, filename, q, list(args), dict(kwargs or {}), list(fn.__defaults__ or ()), dict(fn.__kwdefaults__ or {}))
     finally:
